@@ -17,6 +17,7 @@ PRESPLIT = [[['a', 'alpha'], ['a', '1b']], [['a', 'alpha'], ['n', 2]], [['a', 'r
             [['a', 'rc'], ['n', 1], ['a', '-x']], [['a', 'alpha'], ['a', '0x']]]
 KNOWN_SPLIT = 'C20:prerelease-ident-split'
 KNOWN_MULTI = 'C20:cfg-multivalued-key'
+KNOWN_LEAK = 'C20:target-deps-leak-across-machines'
 MARK = '\x03'
 
 
@@ -357,6 +358,76 @@ def run(ctx):
         cases.append(('resolve', [text] + [vtext[json.dumps(v, sort_keys=True)] for v in item['versions']]))
     for _ in range(nres // 8):
         cases.append(('resolve', [gen_reqstr(rng)] + [rng.choice(junk + pv) for _ in range(rng.randint(0, 6))]))
+    # sessions of _get_cfgs calls on one interpreter with the real caching RustCompiler
+    def session_args(r):
+        lines = [n if v is None else '%s="%s"' % (n, v) for n, v in r['rustc']]
+        out = []
+        for c, text in zip(r['calls'], r['texts']):
+            flags = []
+            for n, v in r['own'][c['key']]:
+                flags += r.get('filler', []) + ['--cfg', n if v is None else '%s="%s"' % (n, v)]
+            out.append('\x02'.join([c['key'], text, '\x01'.join(flags)]))
+        return lines + [MARK] + out
+    sess_items = []
+    XOPTS = [['tokio_unstable', None], ['feature', 'extra'], ['docsrs', None], ['foo', None], ['bar', '1'], ['target_os', 'linux']]
+    base_rustc = [['unix', None], ['target_os', 'linux'], ['target_arch', 'x86_64'], ['debug_assertions', None]]
+    keys3 = ['h:a', 'h:b', 'b:']
+    for own_a in ([XOPTS[0]], [XOPTS[0], XOPTS[1]], [XOPTS[4]]):
+        own = {'h:a': own_a, 'h:b': [], 'b:': []}
+        probes = [['id', own_a[0][0]] if own_a[0][1] is None else ['eq', own_a[0][0], own_a[0][1]]]
+        probes.append(['not', probes[0]])
+        probes.append(['all', [['id', 'unix'], ['not', probes[0]]]])
+        for n in (1, 2, 3) if not thorough else (1, 2, 3, 4):
+            for seq in itertools.product(keys3, repeat=n):
+                for pr in probes:
+                    sess_items.append({'rustc': base_rustc, 'own': own, 'filler': ['-C', 'opt-level=2'],
+                                       'calls': [{'key': k, 'ast': pr, 'sp': 0} for k in seq]})
+    for i in range(12000 if thorough else 1200):
+        rustc_o = gen_options(rng, multi=False)
+        ks = rng.sample(['h:', 'b:', 'h:a', 'h:b', 'b:a', 'h:serde-1-rs', 'b:proc-macro2-1-rs'], rng.randint(2, 4))
+        own = {k: (rng.sample(XOPTS, rng.randint(1, 3)) if rng.random() < 0.55 else []) for k in ks}
+        names = [o for k in ks for o in own[k]] + rustc_o
+        calls = []
+        for _ in range(rng.randint(2, 6)):
+            o = rng.choice(names) if names else ['foo', None]
+            atom = ['id', o[0]] if o[1] is None else ['eq', o[0], o[1]]
+            ast = rng.choice([atom, ['not', atom], ['any', [atom, ['id', 'windows']]], ['all', [['not', atom], gen_glue_cfg(rng, rustc_o, 1)]]])
+            calls.append({'key': rng.choice(ks), 'ast': ast, 'sp': i % 5})
+        sess_items.append({'rustc': rustc_o, 'own': own, 'filler': rng.choice([[], ['-O'], ['-C', 'opt-level=3']]), 'calls': calls})
+    flat = [{'ast': c['ast'], 'sp': c.get('sp', 0)} for r in sess_items for c in r['calls']]
+    ftexts = iter(run_impl('c20.py', {'print': {'cfg': flat}})['print']['cfg'])
+    for r in sess_items:
+        r['texts'] = [next(ftexts) for _ in r['calls']]
+        cases.append(('cfgsession', session_args(r)))
+    ctx.extra['get_cfgs_sessions'] = {'sessions': len(sess_items), 'exhaustive_call_orders_up_to_length': 4 if thorough else 3,
+                                      'keys': 'h:a (own --cfg flags), h:b, b: (none) + random machine/subproject keys',
+                                      'compiler': 'real RustCompiler (lru_cached get_cfgs), rustc process mocked'}
+    # _prepare_package sessions: target-specific dependency tables merged for a sequence of machines
+    def prepare_args(r, texts):
+        hl = [n if v is None else '%s="%s"' % (n, v) for n, v in r['host']]
+        bl = [n if v is None else '%s="%s"' % (n, v) for n, v in r['build']]
+        return (['d' + n for n in r['base']] + ['t' + t + '\x02' + '\x01'.join(x['deps']) for t, x in zip(texts, r['targets'])]
+                + ['h' + l for l in hl] + ['b' + l for l in bl] + ['c' + ('h' if c else 'b') for c in r['calls']])
+    prep_items = []
+    DEPN = ['base', 'libc', 'winapi', 'serde', 'cfg-if', 'mio', 'windows-sys']
+    for i in range(6000 if thorough else 700):
+        same = (i % 3 == 0)
+        host_o = gen_options(rng, multi=False)
+        build_o = host_o if same else gen_options(rng, multi=False)
+        targets = [{'ast': gen_glue_cfg(rng, rng.choice([host_o, build_o]), rng.choice([0, 0, 1, 2])),
+                    'deps': rng.sample(DEPN, rng.randint(1, 2))} for _ in range(rng.randint(0, 3))]
+        uniq = {}
+        for t in targets:                      # a TOML table cannot carry the same condition twice
+            uniq.setdefault(json.dumps(t['ast']), t)
+        targets = list(uniq.values())
+        calls = [rng.random() < 0.5 for _ in range(rng.randint(1, 3))]
+        prep_items.append({'base': rng.sample(DEPN, rng.randint(0, 2)), 'targets': targets, 'host': host_o, 'build': build_o, 'calls': calls})
+    prep_items.append({'base': ['base'], 'targets': [{'ast': ['id', 'windows'], 'deps': ['winapi']}, {'ast': ['id', 'unix'], 'deps': ['libc']}],
+                       'host': [['windows', None], ['target_os', 'windows']], 'build': [['unix', None], ['target_os', 'linux']], 'calls': [True, False]})
+    flat = [{'ast': t['ast'], 'sp': 0} for r in prep_items for t in r['targets']]
+    ftexts = iter(run_impl('c20.py', {'print': {'cfg': flat}})['print']['cfg'])
+    for r in prep_items:
+        cases.append(('prepare', prepare_args(r, [next(ftexts) for _ in r['targets']])))
     # one Dependency object: reads of accepts_version / api and update_version() in every order
     DEP_TRIPLES = [('1', '=1.2.3', '^2'), ('>=1.0, <2', '=1.5.0', '0.5'), ('*', '~1.2', '=0.0.3'), ('^0.2', '>=0.2.0-rc.1', '=0.2.0-rc.1'),
                    ('=2.0.113', '2', '>= 1, < 3'), ('1.*', '', '<=1.0.0-alpha'), ('>=1, >=2', '=1.2.3', '0.0')]
@@ -428,7 +499,7 @@ def run(ctx):
     for s in cases[:2] + cases[len(corpus) + 3:len(corpus) + 5] + cases[-3:]:
         ctx.sample({'fn': s[0], 'args': s[1][:6]})
     if built:
-        small = [(i, c) for i, c in enumerate(cases) if len(c[1]) <= 12]
+        small = [(i, c) for i, c in enumerate(cases) if len(c[1]) <= 12 and sum(len(a) for a in c[1]) < 400]
         ctx.kernel_crosscheck('Cargo.Entry', [c for _, c in small], [model[i] for i, _ in small], limit=300)
     dist = {}
     for fn, args in cases:
@@ -480,6 +551,10 @@ def run(ctx):
         groups.append({'cfgglue': glue_items[i:i + 1500]})
     for i in range(0, len(dep_items), 3000):
         groups.append({'depseq': dep_items[i:i + 3000]})
+    for i in range(0, len(prep_items), 400):
+        groups.append({'prepare': prep_items[i:i + 400]})
+    for i in range(0, len(sess_items), 600):
+        groups.append({'cfgsession': [{k: v for k, v in r.items() if k != 'texts'} for r in sess_items[i:i + 600]]})
     groups.append({'cfgglue': [{'options': [['target_feature', 'sse'], ['target_feature', 'sse2'], ['unix', None]],
                                 'ast': ['eq', 'target_feature', 'sse'], 'sp': 0}]})
     if ctx.disagreements:
@@ -498,7 +573,7 @@ def run(ctx):
     # one violation per clause kind first, so that every distinct defect gets a replay file;
     # within a kind prefer mis-evaluations over rejections and short inputs over long ones
     def weight(f):
-        text = ''.join(str(f.get(k, '')) for k in ('a', 'b', 'c', 'req', 'version', 'versions', 'expr', 'rustc_cfg', 'ops'))
+        text = ''.join(str(f.get(k, '')) for k in ('a', 'b', 'c', 'req', 'version', 'versions', 'expr', 'rustc_cfg', 'ops', 'calls'))
         return (isinstance(f.get('got'), str), len(text) + 3 * len(f.get('cfgs') or {}))
     fails.sort(key=lambda f: (f['kind'],) + weight(f))
     seen_kind, ordered = set(), []
@@ -510,16 +585,23 @@ def run(ctx):
         kind = f['kind']
         if kind == 'semver_order' and f.get('split_class'):
             ident = KNOWN_SPLIT
-        elif kind == 'cfg_glue' and f.get('multivalued'):
+        elif kind in ('cfg_glue', 'cfg_session') and f.get('multivalued'):
             ident = KNOWN_MULTI
+        elif kind == 'prepare' and f.get('leak'):
+            ident = KNOWN_LEAK
         elif kind == 'exception':
             raise HarnessError('oracle crashed: ' + f['exc'])
         else:
-            ident = 'C20:%s:%s' % (kind, json.dumps({k: v for k, v in f.items() if k in ('a', 'b', 'c', 'req', 'version', 'versions', 'expr', 'cfgs', 'rustc_cfg', 'rust_args', 'ops')}, sort_keys=True))
+            ident = 'C20:%s:%s' % (kind, json.dumps({k: v for k, v in f.items() if k in ('a', 'b', 'c', 'req', 'version', 'versions', 'expr', 'cfgs', 'rustc_cfg', 'rust_args', 'ops', 'calls', 'base', 'targets', 'host_cfg', 'build_cfg')}, sort_keys=True))
         if kind in ('semver_order',):
             rp = {'case': ['cmp', [f['a'], f['b']]], 'failure': f}
         elif kind == 'api':
             rp = {'case': ['api', [f['req']]], 'failure': f}
+        elif kind == 'cfg_session':
+            rp = {'case': ['cfgsession', f['rustc_cfg'] + [MARK] + ['\x02'.join([k, e, '\x01'.join(fl)]) for k, e, fl in f['calls']]], 'failure': f}
+        elif kind == 'prepare':
+            rp = {'case': ['prepare', ['d' + n for n in f['base']] + ['t' + c + '\x02' + '\x01'.join(ds) for c, ds in f['targets']]
+                           + ['h' + l for l in f['host_cfg']] + ['b' + l for l in f['build_cfg']] + ['c' + c for c in f['calls']]], 'failure': f}
         elif kind == 'dep_state':
             rp = {'case': ['depseq', [f['req']] + f['ops']], 'failure': f}
         elif kind in ('req_release', 'req_gate', 'req_prerelease'):
